@@ -4,9 +4,11 @@
   Imports only import-free model/spec modules so that it links as a native executable.
 -/
 import NB.Drv.C01
+import NB.Drv.C15
 
 def handlers : List (String × (String → List String → Option (String × String))) :=
-  [ ("C01", NB.Drv.C01.handle) ]
+  [ ("C01", NB.Drv.C01.handle),
+    ("C15", NB.Drv.C15.handle) ]
 
 def answer (line : String) : String :=
   match (line.trimAscii.toString.splitOn " ").filter (· ≠ "") with
